@@ -37,19 +37,25 @@
       same checkpoint, C06_rel_refl) are related after every iteration, every callback invocation sees related
       checkpoints and gives the same answer - FOR EVERY CALLBACK THAT GIVES THE SAME ANSWER ON RELATED
       CHECKPOINTS (explicit hypothesis).
-    - C06_callbacks_respect / C06_scripted_respect: that hypothesis holds for the built-in callback without a
-      target precision (the default), for callbacks scripted on the iteration number, and for the built-in
-      callback with any target on checkpoints none of whose results has non_zero_calls = 0.
+    - C06_callbacks_respect / C06_scripted_respect: that hypothesis holds for the built-in callback
+      (cb_plain / cb_vegas / cb_mc) with ANY target precision, and for callbacks scripted on the iteration
+      number.  The built-in decision reads the results only through hep::weighted_with_variance, which (after
+      the repair below) looks at calls, finite_calls, sum and sum of squares; the non-zero counters are merely
+      added up into the counter of the combined result, which [value], [error] and the decision never read.
+    - C06_run_twin_builtin: hence, for every target, plain / vegas / multi_channel with the built-in callback,
+      started from the same checkpoint with f and with [zeroed f], perform the same number of iterations, give
+      the same callback answers and end in related checkpoints ([same_run] = [run_rel] + equal log lengths) - or
+      are both undefined with the same code.
 
-    WHAT FAILS (stated, not hidden).  The built-in callback with a positive target does NOT in general give the
-    same answer: hep::weighted_with_variance skips results with non_zero_calls() == 0.  An iteration all of
-    whose non-zero evaluations were non-finite has non_zero_calls > 0, sum = sumsq = 0, hence variance 0 and weight
-    1/0: the combined estimate becomes NaN and the callback never stops, whereas in the zeroed twin that
-    iteration is skipped.  C06_builtin_callback_counterexample is a concrete double-precision run (values
-    1,3 | NaN,NaN | 2,2.5 | ..., target 1/4): the poisoned run performs 4 iterations, its twin 3.  So the
-    sentence "the whole run ... is identical to a run in which the same points returned zero" is true of the
-    sampling, the results and the checkpoints, but with the built-in stopping rule the NUMBER of iterations can
-    differ; this is reported as a finding about the library, the model mirrors it.
+    DEFECT FOUND BY THIS PROOF EFFORT AND REPAIRED.  In the pinned library hep::weighted_with_variance skipped a
+    result when non_zero_calls() == 0.  An iteration all of whose non-zero evaluations were non-finite has
+    non_zero_calls > 0 but sum = sumsq = 0, hence variance 0 and weight 1/0: the combined estimate became NaN and
+    the built-in callback with a positive target never stopped, whereas the zeroed twin skipped that iteration
+    (a double-precision run with values 1,3 | NaN,NaN | 2,2.5 | ... and target 1/4 performed 4 iterations, its
+    twin 3 - the former theorem C06_builtin_callback_counterexample).  Repaired in /repo commit 1b97d17 (the test
+    is now finite_calls() == 0, per result and for the final normalisation; demo
+    /verif/findings/C06_poisoned_iteration.cpp); Helper.v mirrors the repaired code, the counterexample is gone
+    and C06_example_callback_lengths now shows 3 iterations against 3 for that very run.
 
     CAVEATS.  (1) "All reported numbers stay finite": only the partial statement
     C06_reported_finite_partial is proved (IEEE formats): every value added to a sum and every value handed back
@@ -141,23 +147,36 @@ Proof. exact (@c06_rel_refl). Qed.
 Print Assumptions C06_rel_refl.
 
 Theorem C06_callbacks_respect : forall (K : Num) (target : K),
-  (ltb K (zero K) target = false ->
-     (forall a b : pchk K, cb_plain target a = cb_plain target b) /\
-     (forall a b : vchk K, cb_vegas target a = cb_vegas target b) /\
-     (forall a b : mchk K, cb_mc target a = cb_mc target b)) /\
-  (forall a b : pchk K, pchk_rel a b ->
-     all_counted (map p_main (b_results a)) -> all_counted (map p_main (b_results b)) ->
-     cb_plain target a = cb_plain target b) /\
-  (forall a b : vchk K, vchk_rel a b ->
-     all_counted (map (fun r => p_main (v_plain r)) (b_results (vc_base a))) ->
-     all_counted (map (fun r => p_main (v_plain r)) (b_results (vc_base b))) ->
-     cb_vegas target a = cb_vegas target b) /\
-  (forall a b : mchk K, mchk_rel a b ->
-     all_counted (map (fun r => p_main (m_plain r)) (b_results (mc_base a))) ->
-     all_counted (map (fun r => p_main (m_plain r)) (b_results (mc_base b))) ->
-     cb_mc target a = cb_mc target b).
+  (forall a b : pchk K, pchk_rel a b -> cb_plain target a = cb_plain target b) /\
+  (forall a b : vchk K, vchk_rel a b -> cb_vegas target a = cb_vegas target b) /\
+  (forall a b : mchk K, mchk_rel a b -> cb_mc target a = cb_mc target b).
 Proof. exact (@c06_callbacks_respect). Qed.
 Print Assumptions C06_callbacks_respect.
+
+(* the combination the built-in callback decides on: related result lists combine to related results *)
+Theorem C06_weighted_with_variance_twin : forall (K : Num) (rs1 rs2 : list (mcres K)),
+  Forall2 mcres_eq_nz rs1 rs2 -> mcres_eq_nz (weighted_with_variance rs1) (weighted_with_variance rs2).
+Proof. exact (@c06_wwv_rel). Qed.
+Print Assumptions C06_weighted_with_variance_twin.
+
+(* [same_run RC RE x y] = run_rel _ _ RC RE x y /\ length (snd x) = length (snd y): related final checkpoints,
+   same call counter, the same number of performed iterations, pairwise related log entries *)
+Theorem C06_run_twin_builtin : forall (K : Num) (L : Libm K) (strm : N -> K) ps (f : integrand K) (mp : mcmap K),
+  @zero_eq_zero K -> forall target : K,
+  (forall d cs c idx,
+     res_rel (same_run pchk_rel ev_rel)
+             (plain_run strm ps f d (cb_plain target) cs c idx)
+             (plain_run strm ps (zeroed f) d (cb_plain target) cs c idx)) /\
+  (forall d cs c idx,
+     res_rel (same_run vchk_rel ev_rel)
+             (vegas_run L strm ps f d (cb_vegas target) cs c idx)
+             (vegas_run L strm ps (zeroed f) d (cb_vegas target) cs c idx)) /\
+  (forall d channels cs c idx,
+     res_rel (same_run mchk_rel ev_rel)
+             (mc_run L strm ps f mp d channels (cb_mc target) cs c idx)
+             (mc_run L strm ps (zeroed f) mp d channels (cb_mc target) cs c idx)).
+Proof. exact (@c06_run_twin_builtin). Qed.
+Print Assumptions C06_run_twin_builtin.
 
 Theorem C06_scripted_respect : forall (K : Num) (script : nat -> bool),
   (forall a b : pchk K, pchk_rel a b -> script (length (b_results a)) = script (length (b_results b))) /\
@@ -167,12 +186,6 @@ Theorem C06_scripted_respect : forall (K : Num) (script : nat -> bool),
      script (length (b_results (mc_base a))) = script (length (b_results (mc_base b)))).
 Proof. exact (@c06_scripted_respects). Qed.
 Print Assumptions C06_scripted_respect.
-
-(* the hypothesis of C06_run_twin is FALSE for the built-in callback with target 1/4 in double precision *)
-Theorem C06_builtin_callback_counterexample :
-  ~ (forall a b : pchk B64, pchk_rel a b -> cb_plain ex06_target a = cb_plain ex06_target b).
-Proof. exact c06_builtin_callback_counterexample. Qed.
-Print Assumptions C06_builtin_callback_counterexample.
 
 Theorem C06_reported_finite_partial : forall prec emax (Hprec : FLX.Prec_gt_0 prec) (Hmax : Prec_lt_emax prec emax),
   let KB := NumB prec emax Hprec Hmax in
@@ -187,9 +200,10 @@ Example C06_example_poisoned :
   @neqb B64 ex06_nan (zero B64) = true /\ isfinite B64 (mul B64 ex06_nan (one B64)) = false /\ @zero_eq_zero B64.
 Proof. exact c06_example_poisoned. Qed.
 
-(* the run behind the counterexample: 4 iterations against 3 *)
+(* the built-in callback with target 1/4 on a run with an all-poisoned iteration (values 1,3 | NaN,NaN | 2,2.5 | ...):
+   both runs return Ok and stop after 3 of the 4 requested iterations (4 against 3 before the repair) *)
 Example C06_example_callback_lengths :
-  loglen (plain_run ex06_strm [] ex06_f 1 (cb_plain ex06_target) [2;2;2;2]%N (base_init 0) 0) = 4%nat /\
+  loglen (plain_run ex06_strm [] ex06_f 1 (cb_plain ex06_target) [2;2;2;2]%N (base_init 0) 0) = 3%nat /\
   loglen (plain_run ex06_strm [] (zeroed ex06_f) 1 (cb_plain ex06_target) [2;2;2;2]%N (base_init 0) 0) = 3%nat.
 Proof. exact ex06_callback_lengths. Qed.
 
